@@ -295,10 +295,41 @@ class AppTracker(object):
         self.small_by_seq = {}       # (id(sending conn), message seq) -> send record of a payload too short for an id
         self.counter = 0
         self.c = world.counters
+        self.endpoint_accepted = set()        # payload ids / (id(sending conn), msgseq) the peer ENDPOINT has accepted (queued for its application)
+        self._inq = 0
         world.deliver_hooks.append(self.on_deliver)
+        tap.listeners.append(self)
 
-    def send(self, endpoint, side, length, retry, api="send", with_cb=True, fill="random", payload=None):
-        """endpoint: ClientEnd (side 'client') or a ServerClientConnection (side 'server')"""
+    # C07 speaks of the peer ENDPOINT accepting the message: that is the moment it enters incoming_messages, which can be
+    # earlier than the hand-over to the application (the server dispatches messages that arrived with the CHALLENGE_RESP
+    # when the next datagram of that client arrives)
+    def before_recv(self, e, datagram):
+        self._inq = len(e.conn.incoming_messages)
+
+    def after_recv(self, e, datagram, res):
+        conn = e.conn
+        new = conn.incoming_messages[self._inq:] if len(conn.incoming_messages) >= self._inq else conn.incoming_messages
+        if not new:
+            return
+        if e.role == "server":
+            cl = self.world.clients_by_addr.get(conn.addr)
+            sender = cl.udp.conn if cl is not None else None
+        else:
+            sender = None
+            for cl in self.world.clients_by_addr.values():
+                if cl.udp.conn is conn:
+                    sender = self.tap.server_by_addr.get(cl.addr)
+        for seq, payload in new:
+            pid = payload_id(bytes(payload))
+            if pid is not None:
+                self.endpoint_accepted.add(pid)
+            elif sender is not None:
+                self.endpoint_accepted.add((id(sender), int(seq)))
+
+    def send(self, endpoint, side, length, retry, api="send", with_cb=True, fill="random", payload=None, extra_cb=None, raw_cb=None, assume_open=False):
+        """endpoint: ClientEnd (side 'client') or a ServerClientConnection (side 'server').
+        extra_cb: called (value) after the callback was recorded (re-entrant use of the API from a callback);
+        raw_cb: THE callback object handed to the library (several sends may share it); such a send has no callback record"""
         from mpgameserver.connection import RetryMode
         w = self.world
         sender = endpoint.sender_id if side == "client" else 0
@@ -313,15 +344,26 @@ class AppTracker(object):
         rec = {"id": pid, "side": side, "sender": sender, "len": len(payload), "retry": int(retry), "api": api,
                "t": w.clock.now, "payload": payload, "cb": [], "with_cb": with_cb, "refused": None,
                "conn": conn, "status_at_send": getattr(conn.status, "value", None) if conn is not None else None}
+        if assume_open:
+            rec["status_at_send"] = 2        # sent from inside the connect callback that reported success
         cb = None
         if with_cb:
             def cb(value, _rec=rec):
-                peer_has = bool(self.deliveries.get(_rec["id"])) if _rec["id"] else _rec.get("delivered", 0) > 0
+                if _rec["id"]:
+                    peer_has = bool(self.deliveries.get(_rec["id"])) or _rec["id"] in self.endpoint_accepted
+                else:
+                    peer_has = _rec.get("delivered", 0) > 0 or (id(_rec["conn"]), _rec.get("msgseq_first")) in self.endpoint_accepted
                 _rec["cb"].append((w.clock.now, value, peer_has))
                 self.c.inc("callbacks")
                 e = self.tap.ends.get(id(_rec["conn"]))
                 if e is not None:
                     e.callbacks_n += 1
+                if extra_cb is not None:
+                    extra_cb(value)
+        if raw_cb is not None:
+            cb = raw_cb
+            rec["with_cb"] = False
+            rec["raw_cb"] = True
         seq0 = int(conn.seq_message) if conn is not None else 0
         q0 = len(conn.outgoing_messages) if conn is not None else 0
         try:
